@@ -190,8 +190,8 @@ static void exec_life(const Plan &p, RunResult &r) {
             r.ev.u64(obs::hash_lwe(v, L.c.n));
             delete_LweSample(xin); delete_LweSample(u); delete_LweSample(v);
         } else if (k == "thread") {
-            ThreadJob j{&L, &o}; pthread_t th;
-            pthread_create(&th, nullptr, thread_body, &j); pthread_join(th, nullptr);
+            ThreadJob j{&L, &o};
+            run_in_thread(thread_body, &j);
             r.probes.add("thread_exit");
         } else if (k == "quad") {
             // alloc/init/destroy/free quadruples and array variants of several types
@@ -240,8 +240,8 @@ static void exec_life(const Plan &p, RunResult &r) {
             // allocation and use on different threads: the allocating thread is gone when the objects are first used as FFT
             // destinations / sources; the same conversions through objects allocated here must give the same bytes
             const TGswParams *gp = L.params->tgsw_params; const TLweParams *tp = gp->tlwe_params;
-            AllocJob j{gp, tp, nullptr, nullptr, nullptr}; pthread_t th;
-            pthread_create(&th, nullptr, alloc_body, &j); pthread_join(th, nullptr);
+            AllocJob j{gp, tp, nullptr, nullptr, nullptr};
+            run_in_thread(alloc_body, &j);
             TGswSampleFFT *g2 = new_TGswSampleFFT(gp); TLweSampleFFT *t2 = new_TLweSampleFFT(tp);
             TGswSample *src = new_TGswSample(gp), *b1 = new_TGswSample(gp), *b2 = new_TGswSample(gp);
             tGswSymEncryptInt(src, 1 + (x & 1), tp->alpha_min, L.sk->tgsw_key);
